@@ -26,12 +26,16 @@ for n in names:
     if a.returncode!=0:
         res[n]={'error':'patch does not apply to the current tree: '+a.stderr[-200:]}; continue
     caught={}
-    for p in props:
-        if p not in claimed: continue
-        r=sh(f'{PC} -prop {p} -tier quick -repo {WT} -verif {EV}', timeout=1200)
-        if r.returncode!=0:
-            lines=[l.strip()[:220] for l in r.stdout.splitlines() if ('VIOLATED' in l or 'UNDECIDED' in l or 'CHECK-BROKEN' in l)]
-            caught[p]={'exit':r.returncode,'reports':lines[:3]}
+    ps=[p for p in props if p in claimed]
+    r=sh(f'{PC} -props {",".join(ps)} -repo {WT} -verif {EV}', timeout=3600)
+    cur=[]
+    for l in r.stdout.splitlines():
+        if l.startswith('BATCH property='):
+            p=l.split('property=')[1].split()[0]; code=int(l.split('exit=')[1])
+            if code!=0: caught[p]={'exit':code,'reports':cur[:3]}
+            cur=[]
+        elif ('VIOLATED' in l or 'UNDECIDED' in l or 'CHECK-BROKEN' in l) and not l.startswith('VIOLATION'):
+            cur.append(l.strip()[:220])
     res[n]={'property':prop,'checks_run':props,'caught_by':caught}
     print(n, 'CAUGHT by '+','.join(caught) if caught else 'missed', flush=True)
     json.dump(res, open(resf,'w'), indent=1, sort_keys=True)
